@@ -166,7 +166,8 @@ PROPS = {
         "quick": [phase(16, 3.0, 120)],
         "thorough": [phase(16, 3.0, 1500),
                      phase(1, 1.0, 300, flavour="release", streams=LADDER_STREAMS),
-                     phase(1, 1.0, 300, flavour="dev", streams=LADDER_STREAMS)],
+                     phase(1, 1.0, 300, flavour="dev", streams=LADDER_STREAMS),
+                     phase(8, 0.15, 900, flavour="asan", streams=["corpus", "grammar", "hayson", "bytes"])],
         "crash_is_violation": True,
         "rule": ("cases = input texts: nesting ladders of [ {a: << {a:[ grid-meta and X( (and JSON [ {\"a\": grid rows) at depths "
                  "1,10,100,127,128,129,1e3,1e4,1e5, closed and unclosed; slices of the shipped corpus files with their prefixes and "
@@ -316,7 +317,8 @@ PROPS = {
                  "the repeated / skipped local hour on both sides, the last nanosecond before t x fraction digits (all of 0-9 in "
                  "thorough, 2 settings per instant in quick), plus four fixed probes per zone; each through "
                  "parse_from_rfc3339_with_timezone (city and IANA name; text at the zone's offset and at UTC), Zinc text written by the "
-                 "harness, Zinc and Hayson round trips of the library's value, Hayson documents written by the harness: same UTC "
+                 "harness, Zinc and Hayson round trips of the library's value, Hayson documents written by the harness, and (millisecond "
+                 "instants) the C API haystack_value_make_tz_datetime / make_utc_datetime + get_datetime_date/time/timezone: same UTC "
                  "instant, same local offset, same zone name. Local times inside a skipped hour written with the old offset must be "
                  "rejected or denote that instant. Offsets: every RFC 3339 offset from -12:00 to +14:00 in 15-minute steps x 50 instants "
                  "x fraction digits through parse_from_rfc3339 / make_datetime_from_iso / FromStr / Hayson without tz: Err or exactly "
@@ -325,7 +327,7 @@ PROPS = {
                         "zones whose city name is shared with another zone are outside the model (Appendix C)",
                         "exhaustive refers to zones x transitions x listed instants; instants between transitions are covered by C01/C02 sampling"],
         "require_strata": {"both": ["zone", "transition:fall-back", "transition:spring-forward", "transition:last-nanosecond",
-                                    "transition:skipped-hour-old-offset", "offset-sweep", "utc"]},
+                                    "transition:skipped-hour-old-offset", "offset-sweep", "utc", "c-api"]},
         "min_evals": {"quick": 200_000, "thorough": 1_000_000},
     },
     "C11": {
